@@ -37,3 +37,17 @@ Theorem C06_hit_sets_stored_meta : forall g marks rs r o, o < nobj g ->
   nth_error (apply_runs mark_mode_src g marks (rs ++ [r])) o = Some (Some (r_meta r (cls_of g o))).
 Proof. exact (fun g marks rs r o Ho Hm => eq_trans (last_run_marks g marks rs r o Ho) (f_equal (fun b : bool => Some (if b then _ else _)) Hm)). Qed.
 Print Assumptions C06_hit_sets_stored_meta.
+
+(* ---- Lab.is_cached: whatever the key directory looks like in the storage and whatever this Lab object answered before, the answer
+   is what the task type's cache class says about the store as it is now — for the body read from Lab.is_cached; an answer taken
+   from the storage directly ignores cache classes with a say of their own, a remembered answer goes stale when an entry is
+   rolled back or removed behind the Lab's back. *)
+Require Import LT.Proofs.IsCachedProofs.
+Theorem C06_is_cached_is_the_caches_answer : forall cache_says storage_has answered_before,
+  lab_is_cached is_cached_src cache_says storage_has answered_before = cache_says.
+Proof. exact is_cached_follows_cache. Qed.
+Print Assumptions C06_is_cached_is_the_caches_answer.
+Theorem C06_is_cached_shortcuts_refuted :
+  (exists c s b, lab_is_cached IsCachedAsksStorage c s b <> c) /\ (exists c s b, lab_is_cached IsCachedMemoises c s b <> c).
+Proof. exact (conj is_cached_storage_refuted is_cached_memo_refuted). Qed.
+Print Assumptions C06_is_cached_shortcuts_refuted.
